@@ -67,7 +67,7 @@ impl<'a> Gen<'a> {
     fn attrs(&mut self, e: &mut ANode, foreign_prefix_ns: Option<&str>) {
         let n = self.rng.pick_weighted(&[4, 4, 2, 1]);
         for _ in 0..n {
-            let name = *self.rng.pick(&["id", "class", "href", "selected", "checked", "DISABLED", "title", "data-x"]);
+            let name = if self.rng.chance(1, 40) { *self.rng.pick(&["chec\u{212a}ed", "di\u{17f}abled", "\u{17f}elected"]) } else { *self.rng.pick(&["id", "class", "href", "selected", "checked", "DISABLED", "title", "data-x"]) };
             let q = if let (Some(ns), true) = (foreign_prefix_ns, self.rng.chance(1, 6)) { QName::new(ns, name) } else { QName::plain(name) };
             if e.attrs.iter().any(|(x, _)| *x == q) {
                 continue;
@@ -94,6 +94,12 @@ impl<'a> Gen<'a> {
         // HTML names in lower, upper, capitalised and random letter case; every void name is in the pool
         let mut html_name = |rng: &mut Rng| -> String {
             let base: &str = if rng.chance(1, 3) { *rng.pick(VOID_JUDGED) } else if rng.chance(1, 12) { *rng.pick(VOID_LEGACY) } else { *rng.pick(HTML_NAMES) };
+            if rng.chance(1, 40) {
+                // look-alikes: names that only become a void / raw-text name under Unicode (not ASCII) case folding -
+                // U+212A KELVIN SIGN lowercases to "k", U+017F LONG S uppercases to "S". HTML matches names ASCII
+                // case-insensitively, so these are ordinary elements
+                return rng.pick(&["lin\u{212a}", "trac\u{212a}", "\u{212a}eygen", "LIN\u{212a}", "\u{17f}ource", "ba\u{17f}e", "\u{17f}cript", "\u{17f}tyle", "\u{17f}CRIPT"]).to_string();
+            }
             match rng.below(5) {
                 0 | 1 => base.to_string(),
                 2 => base.to_ascii_uppercase(),
